@@ -39,3 +39,13 @@ Ltac unit_denoms H :=
              assert (E : d = 1) by (ring [H] || lra); rewrite !E; clear E
       end
   end.
+
+(* choose the disjunct (path) of a generated  f_rel args ?out  goal whose path condition follows from the
+   hypotheses; `unf` brings the relevant path-condition hypothesis into the goal and unfolds definitions *)
+Ltac rel_pick unf :=
+  red;
+  let rec go :=
+    lazymatch goal with
+    | |- _ \/ _ => first [ left; go | right; go ]
+    | |- _ /\ _ = _ => split; [ unf; tauto | reflexivity ]
+    end in go.
